@@ -114,6 +114,16 @@ func (w *W) qwords(q []uint64) *W {
 }
 
 func (g *G) indexString(max int) string {
+	switch g.intn(18) {
+	case 14: // digit strings at the edges of int64 / uint64: not indices (strconv.Atoi: out of range)
+		return g.pick("9223372036854775807", "9223372036854775808", "18446744073709551615", "18446744073709551616", "99999999999999999999999")
+	case 15: // zero-padded decimals: the same index as without the padding (never octal)
+		return g.pick("0", "00", "000") + strconv.Itoa(g.intn(max))
+	case 16: // padded two-digit indices (8, 9, 10 …: where an octal reading would differ or fail)
+		return "0" + strconv.Itoa(8+g.intn(5))
+	case 17:
+		return g.pick("0b11", "0o7", "1_0", "0X3")
+	}
 	switch g.intn(14) {
 	case 0:
 		return "-1"
@@ -168,6 +178,12 @@ func grpcHistory(h *H, prop string, steps int, malformed bool) {
 	idx := func(max int) string {
 		if malformed {
 			return g.indexString(max)
+		}
+		if g.intn(12) == 0 {
+			// valid decimal spellings with leading zeros (fixed-width ids): the same coordinate as without them,
+			// also where an octal reading would differ ("010") or fail ("08")
+			g.count("index:zero-padded-decimal")
+			return g.pick("0", "00") + strconv.Itoa(g.pick2(g.intn(max), 8+g.intn(5)))
 		}
 		return strconv.Itoa(g.intn(max))
 	}
